@@ -4,7 +4,11 @@ Translation validation with a proved validator: the real functions are run throu
 sub-family where Mathlib proves a closed form; the exact output is decided against the exact value by `mpdrv spec/specc`
 (Mp.SpecRef.specCheck, sound by Props/C19.lean).  Arguments outside the sub-family are counted, not decided.
 zeta(n)/altzeta(n) at integers n >= 2 proportional to the precision are decided against the direct-sum
-enclosure `Mp.SpecRef.zetaEncl` by `mpdrv spec2/specc2` (sound by Props/C19b.lean)."""
+enclosure `Mp.SpecRef.zetaEncl` by `mpdrv spec2/specc2` (sound by Props/C19b.lean).
+polylog(s, z) at integers s >= 2 and dyadic 0 < |z| <= 13/16 (z down to far below 2^-(p+10): the result is ~z while the series
+code stops on an absolute tolerance) is decided against z * (s+1)F(s)(1,..,1; 2,..,2; z), the series enclosed by
+`Mp.SpecRef.hypEncl` (Props/C22b.lean): inside the driver on the exactly rescaled output when z = +-2^-k, otherwise by exact
+rational arithmetic on the driver's enclosure (special_pyref.decide_scaled)."""
 import special_ops
 
 LEVEL = "translation_validation"
